@@ -362,6 +362,18 @@ func c16Specs(env *c16Env) []rpcSpec {
 			{"retry", []alt{
 				{"absent", func(m proto.Message) {}},
 				{"empty", func(m proto.Message) { get(m).RetryPolicy = &pubsubpb.RetryPolicy{} }},
+				{"min-only", func(m proto.Message) {
+					get(m).RetryPolicy = &pubsubpb.RetryPolicy{MinimumBackoff: durationpb.New(time.Second)}
+				}},
+				{"max-only", func(m proto.Message) {
+					get(m).RetryPolicy = &pubsubpb.RetryPolicy{MaximumBackoff: durationpb.New(30 * time.Second)}
+				}},
+				{"both", func(m proto.Message) {
+					get(m).RetryPolicy = &pubsubpb.RetryPolicy{MinimumBackoff: durationpb.New(time.Second), MaximumBackoff: durationpb.New(30 * time.Second)}
+				}},
+				{"zero-min", func(m proto.Message) {
+					get(m).RetryPolicy = &pubsubpb.RetryPolicy{MinimumBackoff: &durationpb.Duration{}, MaximumBackoff: durationpb.New(time.Second)}
+				}},
 				{"negative", func(m proto.Message) {
 					get(m).RetryPolicy = &pubsubpb.RetryPolicy{MinimumBackoff: durationpb.New(-time.Second), MaximumBackoff: durationpb.New(-time.Hour)}
 				}},
@@ -372,6 +384,10 @@ func c16Specs(env *c16Env) []rpcSpec {
 			{"deadletter", []alt{
 				{"absent", func(m proto.Message) {}},
 				{"empty", func(m proto.Message) { get(m).DeadLetterPolicy = &pubsubpb.DeadLetterPolicy{} }},
+				{"valid", func(m proto.Message) {
+					get(m).DeadLetterPolicy = &pubsubpb.DeadLetterPolicy{DeadLetterTopic: c16T2, MaxDeliveryAttempts: 5}
+				}},
+				{"valid-default-attempts", func(m proto.Message) { get(m).DeadLetterPolicy = &pubsubpb.DeadLetterPolicy{DeadLetterTopic: c16T2} }},
 				{"attempts-no-topic", func(m proto.Message) { get(m).DeadLetterPolicy = &pubsubpb.DeadLetterPolicy{MaxDeliveryAttempts: 3} }},
 				{"topic-neg-attempts", func(m proto.Message) {
 					get(m).DeadLetterPolicy = &pubsubpb.DeadLetterPolicy{DeadLetterTopic: c16T2, MaxDeliveryAttempts: -1}
@@ -901,6 +917,24 @@ func runC16(t *testing.T, tier string) int {
 				fmt.Fprintln(os.Stderr, "C16 harness: dump:", derr)
 				return 2
 			}
+			if err == nil && baseline.Diff(after) != "" {
+				// the request changed something: everything must still be readable
+				// (a stored value that a reader cannot render wedges Get / List)
+				for _, probe := range c16Probes(m) {
+					pctx, pcancel := context.WithTimeout(context.Background(), 15*time.Second)
+					perr := probe.call(pctx, srv)
+					pcancel()
+					total++
+					if c := status.Code(perr); c == codes.Internal || c == codes.Unknown || c == codes.Unavailable || !srv.alive() {
+						sink.add(report.Viol{Property: "C16", Check: "C16/" + sp.name, Rule: "poisoned-state", Text: fmt.Sprintf("after the accepted request %s, %s answers %v", desc, probe.name, perr), Trace: []string{desc, probe.name}})
+						if !srv.alive() {
+							if err := restart(); err != nil {
+								return 2
+							}
+						}
+					}
+				}
+			}
 			if err != nil {
 				errs++
 				if d := baseline.DiffIgnoring(after, sp.ignore...); d != "" {
@@ -948,6 +982,49 @@ func runC16(t *testing.T, tier string) int {
 		Assumptions: []string{"a failed Pull / StreamingPull may still have refreshed the subscription's expires_at (and a stream may have leased messages before it was cut)", "requests limited to <=2 (3) simultaneous field deviations from a valid request"}}
 	sort.Slice(sink.list, func(i, j int) bool { return sink.list[i].Trace[0] < sink.list[j].Trace[0] })
 	return report.Finish(ev, sink.list, t0)
+}
+
+type c16Probe struct {
+	name string
+	call func(ctx context.Context, s *c16Srv) error
+}
+
+// c16Probes: read-back requests for whatever the message names.
+func c16Probes(m proto.Message) []c16Probe {
+	var out []c16Probe
+	out = append(out,
+		c16Probe{"ListTopics", func(ctx context.Context, s *c16Srv) error {
+			_, err := s.pub.ListTopics(ctx, &pubsubpb.ListTopicsRequest{Project: "projects/p"})
+			return err
+		}},
+		c16Probe{"ListSubscriptions", func(ctx context.Context, s *c16Srv) error {
+			_, err := s.sub.ListSubscriptions(ctx, &pubsubpb.ListSubscriptionsRequest{Project: "projects/p"})
+			return err
+		}},
+		c16Probe{"ListSnapshots", func(ctx context.Context, s *c16Srv) error {
+			_, err := s.sub.ListSnapshots(ctx, &pubsubpb.ListSnapshotsRequest{Project: "projects/p"})
+			return err
+		}},
+	)
+	name := ""
+	switch x := m.(type) {
+	case *pubsubpb.Subscription:
+		name = x.Name
+	case *pubsubpb.UpdateSubscriptionRequest:
+		name = x.GetSubscription().GetName()
+	case *pubsubpb.ModifyPushConfigRequest:
+		name = x.Subscription
+	}
+	if name != "" {
+		out = append(out, c16Probe{"GetSubscription(" + name + ")", func(ctx context.Context, s *c16Srv) error {
+			_, err := s.sub.GetSubscription(ctx, &pubsubpb.GetSubscriptionRequest{Subscription: name})
+			if status.Code(err) == codes.NotFound || status.Code(err) == codes.InvalidArgument {
+				return nil
+			}
+			return err
+		}})
+	}
+	return out
 }
 
 func prototextOf(m proto.Message) string {
